@@ -1630,20 +1630,18 @@ class Module(ABC):
             num_inserted,
         ], "Number of comps and stimuli do not match."
 
+        # Compartment states are indexed by compartments, synaptic states by edges.
+        inds_in_view = self._nodes_in_view if key in comp_states else self._edges_in_view
         if key in self.base.externals.keys():
             self.base.externals[key] = jnp.concatenate(
                 [self.base.externals[key], values]
             )
             self.base.external_inds[key] = jnp.concatenate(
-                [self.base.external_inds[key], self._nodes_in_view]
+                [self.base.external_inds[key], inds_in_view]
             )
         else:
-            if key in comp_states:
-                self.base.externals[key] = values
-                self.base.external_inds[key] = self._nodes_in_view
-            else:
-                self.base.externals[key] = values
-                self.base.external_inds[key] = self._edges_in_view
+            self.base.externals[key] = values
+            self.base.external_inds[key] = inds_in_view
         if verbose:
             print(
                 f"Added {num_inserted} external_states. See `.externals` for details."
@@ -1750,11 +1748,15 @@ class Module(ABC):
         if "i" in all_externals:
             all_externals.remove("i")
         state_names = all_externals if state_name is None else [state_name]
+        comp_states, _ = self.base._get_state_names()
         for state_name in state_names:
             if state_name in self.externals:
-                keep_inds = ~np.isin(
-                    self.base.external_inds[state_name], self._nodes_in_view
+                in_view = (
+                    self._nodes_in_view
+                    if state_name in comp_states
+                    else self._edges_in_view
                 )
+                keep_inds = ~np.isin(self.base.external_inds[state_name], in_view)
                 base_exts = self.base.externals
                 base_exts_inds = self.base.external_inds
                 if np.all(~keep_inds):
@@ -2631,10 +2633,12 @@ class View(Module):
         """Update external inputs to show only those currently in view."""
         self.externals = {}
         self.external_inds = {}
+        comp_states, _ = self.base._get_state_names()
         for (name, inds), data in zip(
             self.base.external_inds.items(), self.base.externals.values()
         ):
-            in_view = np.isin(inds, self._nodes_in_view)
+            viewed = self._nodes_in_view if name in comp_states else self._edges_in_view
+            in_view = np.isin(inds, viewed)
             inds_in_view = inds[in_view]
             if len(inds_in_view) > 0:
                 self.externals[name] = data[in_view]
